@@ -240,6 +240,12 @@ def run_check(prop_factory, tier):
     nshards = prop.thorough_shards if tier == "thorough" else prop.quick_shards
     seconds = prop.thorough_seconds if tier == "thorough" else prop.quick_seconds
     seconds = float(os.environ.get("VERIF_SECONDS", seconds))
+    # source map: functions of the working tree that differ from the revision the model was written against; a property
+    # anchored in a file that changed gets three times the generation budget (nothing changes on the unchanged tree)
+    from . import srcmap
+    changed = srcmap.changed_functions()
+    mult = srcmap.boost(pid, changed)
+    seconds *= mult
     args = [(prop_factory, tier, seed, s, nshards, seconds) for s in range(nshards)]
     if nshards == 1:
         results = [run_shard(args[0])]
@@ -325,6 +331,7 @@ def run_check(prop_factory, tier):
         "disagreements_model_vs_impl": len(disagree), "failing_inputs": len(failing),
         "shards": nshards, "seconds_per_shard": seconds, "lake_build_s": round(bt, 2),
         "repo_head": core.repo_head(),
+        "changed_source_functions": (changed if changed is not None else "model_map.json missing"), "budget_multiplier": mult,
         "leanchecker": ({"modules_rechecked": lc["modules"], "ok": lc["ok"], "wall_s": lc["wall_s"]} if lc else "thorough tier only"),
         "explanation": prop.title,
     }
